@@ -110,7 +110,8 @@ class TriangularLinearOperator(LinearOperator, _TriangularLinearOperatorBase):
     def _mul_constant(
         self: Float[LinearOperator, "*batch M N"], other: Union[float, torch.Tensor]
     ) -> Float[LinearOperator, "*batch M N"]:
-        return self.__class__(self._tensor * other.unsqueeze(-1), upper=self.upper)
+        # other is a (batch of) constant(s) of shape (*batch): align it with the matrix dimensions
+        return self.__class__(self._tensor * other.unsqueeze(-1).unsqueeze(-1), upper=self.upper)
 
     def _root_decomposition(
         self: Float[LinearOperator, "... N N"]
